@@ -14,8 +14,7 @@ both problem kinds, coordinate flips, shrink, unshrink).
 Helper lemmas: `Lemmas/Smo.lean` (invariant, flips, shrink/unshrink), `Lemmas/SmoStep.lean` (SMO steps),
 `Lemmas/SmoObjective.lean` (dual objective), `Lemmas/Box2d.lean` (shape of the generated 2-D box solver).
 -/
-import SharkVerif.Lemmas.Shrink
-import SharkVerif.Lemmas.Select
+import SharkVerif.Lemmas.SolveLoop
 import Mathlib.Tactic.FieldSimp
 namespace SharkVerif.C08
 open SharkVerif.Qp SharkVerif.Gen.Analytic SharkVerif.Smo
@@ -587,5 +586,115 @@ theorem solveIter_direct_inv (strategy : Nat) (eps : Rat) (heps : 0 < eps) (s : 
     · rw [he]; exact inv_shrink hI eps
   · simp only [List.mem_cons, List.not_mem_nil, or_false] at he
     rw [he]; exact hI
+
+
+/-! ## 7. Every run of `QpSolver::solve` on the box-constrained problem -/
+
+/-- **every pass of `QpSolver::solve` on the box-constrained problem** (maximum-gain selection, `strategy ≥ 2`,
+`eps > 0`), the stopping branch with its re-selection included: every state the pass produces satisfies the invariant,
+and so does the state handed to the next pass. -/
+theorem solveIter_inv_box (strategy : Nat) (hstr : 2 ≤ strategy) (eps : Rat) (heps : 0 < eps) (s : RS) (counter : Nat)
+    (h : Inv s) (he : s.eqc = false) :
+    (∀ e, e ∈ (solveIter strategy eps s counter).1 → Inv e.2 ∧ e.2.eqc = false) ∧
+    (∀ s' c', (solveIter strategy eps s counter).2 = some (s', c') → Inv s' ∧ s'.eqc = false) := by
+  have hsel : ∀ (t : RS) (i0 j0 : Nat), t.select strategy i0 j0 = t.selectMaxGain := by
+    intro t i0 j0
+    match strategy, hstr with
+    | n + 2, _ => rfl
+  -- the SMO step on a pair of active indices
+  have hstep : ∀ (t : RS), Inv t → t.eqc = false → 0 < t.active →
+      Inv (t.updateSMO t.selectMaxGain.1 t.selectMaxGain.2.1) ∧ (t.updateSMO t.selectMaxGain.1 t.selectMaxGain.2.1).eqc = false := by
+    intro t ht hte hpos
+    obtain ⟨hi, hj⟩ := selectMaxGain_lt t hpos
+    exact ⟨updateSMO_inv_box ht hte hi hj, ((updateSMO_frame t _ _).2.1).trans hte⟩
+  -- the tail of the pass: SMO step on `t`, then possibly the periodic shrink
+  have htail : ∀ (t : RS) (pre : List (Ev × RS)), Inv t → t.eqc = false → 0 < t.active →
+      (∀ e, e ∈ pre → Inv e.2 ∧ e.2.eqc = false) →
+      let s3 := t.updateSMO t.selectMaxGain.1 t.selectMaxGain.2.1
+      let evs := pre ++ [(Ev.smo t.selectMaxGain.1 t.selectMaxGain.2.1, s3)]
+      (∀ e, e ∈ evs → Inv e.2 ∧ e.2.eqc = false) ∧
+      (∀ e, e ∈ evs ++ [(Ev.shrink (s3.shrink eps).2, (s3.shrink eps).1)] → Inv e.2 ∧ e.2.eqc = false) ∧
+      (Inv (s3.shrink eps).1 ∧ (s3.shrink eps).1.eqc = false) ∧ (Inv s3 ∧ s3.eqc = false) := by
+    intro t pre ht hte hpos hpre s3 evs
+    have h3 := hstep t ht hte hpos
+    have h4 : Inv (s3.shrink eps).1 ∧ (s3.shrink eps).1.eqc = false :=
+      ⟨inv_shrink h3.1 eps, (shrink_eqc s3 h3.1 eps).trans h3.2⟩
+    refine ⟨?_, ?_, h4, h3⟩
+    · intro e he'
+      rcases List.mem_append.mp he' with h' | h'
+      · exact hpre e h'
+      · simp only [List.mem_cons, List.not_mem_nil, or_false] at h'; rw [h']; exact h3
+    · intro e he'
+      rcases List.mem_append.mp he' with h' | h'
+      · rcases List.mem_append.mp h' with h'' | h''
+        · exact hpre e h''
+        · simp only [List.mem_cons, List.not_mem_nil, or_false] at h''; rw [h'']; exact h3
+      · simp only [List.mem_cons, List.not_mem_nil, or_false] at h'; rw [h']; exact h4
+  unfold solveIter
+  simp only [hsel]
+  by_cases hacc : s.selectMaxGain.2.2 < eps
+  · -- stopping branch
+    simp only [hacc, if_true]
+    have hu : Inv s.unshrink := inv_unshrink h
+    have hue : s.unshrink.eqc = false := (unshrink_eqc s).trans he
+    by_cases hkkt : s.unshrink.checkKKT < eps
+    · simp only [hkkt, if_true]
+      refine ⟨?_, fun s' c' hn => by simp at hn⟩
+      intro e he'
+      simp only [List.mem_cons, List.not_mem_nil, or_false] at he'
+      rw [he']; exact ⟨hu, hue⟩
+    · simp only [hkkt, if_false]
+      have hkpos : 0 < s.unshrink.checkKKT := lt_of_lt_of_le heps (not_lt.mp hkkt)
+      have ht : Inv (s.unshrink.shrink eps).1 := inv_shrink hu eps
+      have hte : (s.unshrink.shrink eps).1.eqc = false := (shrink_eqc _ hu eps).trans hue
+      have hpos : 0 < (s.unshrink.shrink eps).1.active :=
+        shrink_box_active_pos hu hue (unshrink_active s) eps hkpos
+      have hpre : ∀ e, e ∈ [(Ev.unshrink, s.unshrink), (Ev.shrink (s.unshrink.shrink eps).2, (s.unshrink.shrink eps).1)] →
+          Inv e.2 ∧ e.2.eqc = false := by
+        intro e he'
+        simp only [List.mem_cons, List.not_mem_nil, or_false] at he'
+        rcases he' with h' | h' <;> rw [h']
+        · exact ⟨hu, hue⟩
+        · exact ⟨ht, hte⟩
+      obtain ⟨t1, t2, t3, t4⟩ := htail _ _ ht hte hpos hpre
+      try dsimp only at t1 t2 t3 t4 ⊢
+      split
+      · exact ⟨t2, fun s' c' hn => by simp only [Option.some.injEq, Prod.mk.injEq] at hn; rw [← hn.1]; exact t3⟩
+      · exact ⟨t1, fun s' c' hn => by simp only [Option.some.injEq, Prod.mk.injEq] at hn; rw [← hn.1]; exact t4⟩
+  · -- direct branch: the selection reports a violation ≥ eps > 0
+    simp only [hacc, if_false]
+    have hv : 0 < s.selectMaxGain.2.2 := lt_of_lt_of_le heps (not_lt.mp hacc)
+    have hpos : 0 < s.active := by have := (selectMaxGain_spec s hv).1; omega
+    obtain ⟨t1, t2, t3, t4⟩ := htail s [] h he hpos (fun e he' => by simp at he')
+    try dsimp only at t1 t2 t3 t4 ⊢
+    simp only [List.nil_append] at t1 t2 ⊢
+    split
+    · exact ⟨t2, fun s' c' hn => by simp only [Option.some.injEq, Prod.mk.injEq] at hn; rw [← hn.1]; exact t3⟩
+    · exact ⟨t1, fun s' c' hn => by simp only [Option.some.injEq, Prod.mk.injEq] at hn; rw [← hn.1]; exact t4⟩
+
+
+/-- **the whole solver run on the box-constrained problem** (`CSvmTrainer` without bias: maximum-gain selection): for
+every iteration limit, start counter and `eps > 0`, the state `QpSolver::solve` ends in satisfies the invariant -- no
+admissibility hypothesis on the working sets is left, the solver's own selections are covered, the re-selection in the
+stopping branch included. -/
+theorem solve_inv_box (strategy : Nat) (hstr : 2 ≤ strategy) (eps : Rat) (heps : 0 < eps) :
+    ∀ (fuel : Nat) (s : RS) (counter it : Nat), Inv s → s.eqc = false → Inv (solve strategy eps fuel s counter it).1 := by
+  intro fuel
+  induction fuel with
+  | zero => intro s _ _ h _; exact h
+  | succ fuel ih =>
+    intro s counter it h he
+    obtain ⟨hev, hnext⟩ := solveIter_inv_box strategy hstr eps heps s counter h he
+    unfold solve
+    cases hn : (solveIter strategy eps s counter).2 with
+    | none =>
+      simp only []
+      cases hl : (solveIter strategy eps s counter).1.getLast? with
+      | none => simpa using h
+      | some e => simpa using (hev e (List.mem_of_getLast? hl)).1
+    | some p =>
+      obtain ⟨s', c'⟩ := p
+      simp only []
+      exact ih s' c' (it + 1) (hnext s' c' hn).1 (hnext s' c' hn).2
 
 end SharkVerif.C08
